@@ -160,3 +160,44 @@ theorem index_spec {α : Type} (s : Stack α) (i : Int) :
       omega
 
 end Vore.Ds
+
+namespace Vore.Ds
+
+/-- pop `n` times, collecting what comes out (`none` = the queue was empty) -/
+def Queue.popN {α : Type} : Nat → Queue α → List (Option α) × Queue α
+  | 0, q => ([], q)
+  | n + 1, q => let r := Queue.popN n q.pop.2; (q.pop.1 :: r.1, r.2)
+
+theorem pop_cons {α : Type} (x : α) (xs : List α) : (⟨x :: xs⟩ : Queue α).pop = (some x, ⟨xs⟩) := by
+  simp [Queue.pop, Queue.isEmpty]
+
+theorem pop_nil {α : Type} : (⟨[]⟩ : Queue α).pop = (none, ⟨[]⟩) := by
+  simp [Queue.pop, Queue.isEmpty]
+
+theorem popN_store {α : Type} (xs : List α) (k : Nat) :
+    Queue.popN (xs.length + k) (⟨xs⟩ : Queue α) = (xs.map some ++ List.replicate k none, ⟨[]⟩) := by
+  induction xs with
+  | nil =>
+    simp only [List.length_nil, Nat.zero_add, List.map_nil, List.nil_append]
+    induction k with
+    | zero => rfl
+    | succ k ih => simp only [Queue.popN, pop_nil, ih, List.replicate_succ]
+  | cons x xs ih =>
+    have : (x :: xs).length + k = (xs.length + k) + 1 := by simp; omega
+    rw [this]
+    simp only [Queue.popN, pop_cons, ih, List.map_cons, List.cons_append]
+
+theorem foldl_push_queue {α : Type} (ys : List α) (q : Queue α) : (ys.foldl Queue.push q) = ⟨q.store ++ ys⟩ := by
+  induction ys generalizing q with
+  | nil => simp
+  | cons y ys ih => simp [ih, Queue.push]
+
+/-- **first in, first out**: after any pushes, popping as many times returns the pushed values in order and leaves the
+queue empty; further pops return `nil` and change nothing -/
+theorem fifo {α : Type} (xs : List α) (k : Nat) :
+    Queue.popN (xs.length + k) (xs.foldl Queue.push (Queue.new : Queue α)) =
+      (xs.map some ++ List.replicate k none, ⟨[]⟩) := by
+  rw [foldl_push_queue]
+  simpa [Queue.new] using popN_store xs k
+
+end Vore.Ds
